@@ -186,6 +186,44 @@ static void prop(Ctx &c) {
         c.label("crafted-length-leads");
     }
 
+    // pin histories: the digest / length options set several times on one context, refused calls (bad string, bad length) in
+    // between, the error cleared as a caller would.  What is pinned is what the last ACCEPTED call of each option said; a
+    // refused call must not loosen it.  Judged one way (accepted lead => stored values equal the pins in force) whenever a
+    // call was refused, both ways when every call was accepted.
+    if (c.gver >= 4) {
+        int fd = lib::mkfd(file); zckCtx *z = zck_create(); std::string hist; bool refused = false, dead = false, odd = false;
+        std::string last_dg; bool have_dg = false; long last_len = -1; bool have_len = false;
+        if (!zck_init_adv_read(z, fd) || !zck_set_ioption(z, ZCK_VAL_HEADER_HASH_TYPE, T)) { zck_free(&z); close(fd); c.fail("setter-rejects-valid", "cannot pin the file's own checksum type"); }
+        size_t steps = 2 + c.draw(3);
+        for (size_t i = 0; i < steps && !dead; i++) {
+            bool ok, valid;
+            if (c.boolean()) {
+                uint64_t k = c.draw(4); std::string dg = hexstr(h.header_digest, &c);
+                if (k == 1) { Bytes d = c.bytes(ds); if (d == h.header_digest) d[0] ^= 1; dg = hexstr(d, &c); }
+                else if (k == 2) dg[c.pick(dg.size())] = "gG xz-/:@`\x7f"[c.pick(12)];
+                else if (k == 3) { if (c.boolean()) dg.pop_back(); else dg += "0"; }
+                else if (k == 4) { Bytes d = h.header_digest; d[c.pick(d.size())] ^= (uint8_t)(1u << c.draw(7)); dg = hexstr(d, &c); }
+                valid = k != 2 && k != 3; ok = zck_set_soption(z, ZCK_VAL_HEADER_DIGEST, dg.data(), dg.size());
+                hist += std::string("digest:=") + (k == 0 ? "exact" : k == 1 ? "other" : k == 2 ? "non-hex" : k == 3 ? "wrong-length" : "one-bit-off") + (ok ? "(accepted) " : "(refused) ");
+                if (ok && valid) { last_dg = dg; have_dg = true; }
+            } else {
+                uint64_t k = c.draw(3); long L = k == 0 ? (long)h.total_size : k == 1 ? (long)h.total_size + 1 : k == 2 ? (long)h.total_size - 1 : -1 - (long)c.draw(5);
+                valid = L >= 0; ok = zck_set_ioption(z, ZCK_VAL_HEADER_LENGTH, L);
+                hist += "length:=" + std::to_string(L) + (ok ? "(accepted) " : "(refused) ");
+                if (ok && valid) { last_len = L; have_len = true; }
+            }
+            if (ok && !valid) odd = true;                                   // judged by the setter model above, not here
+            if (!ok) { refused = true; if (!zck_clear_error(z)) dead = true; }
+        }
+        bool api = c.boolean(); bool acc = !dead && (api ? zck_validate_lead(z) : zck_read_lead(z)); evals++;
+        bool must_reject = false;
+        if (have_dg) for (size_t i = 0; i < h.header_digest.size(); i++) if ((hexval(last_dg[2 * i]) << 4 | hexval(last_dg[2 * i + 1])) != h.header_digest[i]) must_reject = true;
+        if (have_len && last_len != (long)h.total_size) must_reject = true;
+        zck_free(&z); close(fd); c.label(refused ? "pin-history-with-refusal" : "pin-history");
+        if (!odd && acc && must_reject) c.fail("lead-accepted", std::string(api ? "zck_validate_lead" : "zck_read_lead") + " accepted a lead whose stored values differ from the pins in force after the history {" + hist + "}");
+        if (!odd && !refused && !acc && !must_reject) c.fail("lead-rejected", std::string(api ? "zck_validate_lead" : "zck_read_lead") + " rejected a lead whose stored values equal the pins in force after the history {" + hist + "}");
+    }
+
     // exhaustive: every byte value at every position of the exact digest string
     if (c.rarely(3) || c.tier) {
         c.label("exhaustive-digest-string");
